@@ -198,3 +198,73 @@ Print Assumptions C19_outside_rot_words.
 Print Assumptions C19_outside_examples.
 Print Assumptions C19_surface.
 Print Assumptions C19_nonvacuous.
+
+(** audit C19-F1 (work package audit-followups): the build profile as TWO independent switches
+    ([-C overflow-checks], [-C debug-assertions]). [run_op2 q] (Proofs/FollowupsNull.v) = the dispatch
+    tables of Model/PpvNull.v with each method applied to the switch it consults (no method consults
+    both). The four combinations reduce to the two modelled profiles method by method, so every
+    theorem above that is quantified over [p] holds for every [q] ([C19_two_switch_transfer]). *)
+From CC Require Import Proofs.FollowupsNull.
+
+Theorem C19_two_switch_reduction :
+  forall oc da t o a b i,
+    run_op2 (P2 oc da) t o a b i = run_op (prof (if uses_overflow o then oc else da)) t o a b i.
+Proof. exact run_op2_mixed. Qed.
+
+Theorem C19_two_switch_diagonal :
+  forall t o a b i,
+    run_op2 (P2 true true) t o a b i = run_op Debug t o a b i /\
+    run_op2 (P2 false false) t o a b i = run_op Release t o a b i.
+Proof. exact run_op2_diagonal. Qed.
+
+Theorem C19_two_switch_transfer :
+  forall t o a b i (P : option (res (list N)) -> Prop),
+    (forall p, P (run_op p t o a b i)) -> forall q, P (run_op2 q t o a b i).
+Proof. exact transfer. Qed.
+
+Theorem C19_model_eq_spec_any_switches :
+  forall q t o a b i, in_domain t o a b i = true -> run_op2 q t o a b i = Some (Ok (spec_op t o a b i)).
+Proof. exact model2_eq_spec. Qed.
+
+Theorem C19_total_any_switches :
+  forall q t o a b i, in_domain t o a b i = true ->
+    run_op2 q t o a b i <> Some Panic /\ run_op2 q t o a b i <> None /\ exists r, run_op2 q t o a b i = Some (Ok r).
+Proof. exact total2. Qed.
+
+(** outside the domain, by the switch that decides *)
+Theorem C19_outside_splat_rotr_by_overflow_checks :
+  forall q t a b i, has_op t OSplatRotr = true ->
+    (overflow_checks q = true -> i = 0 \/ width t <= i -> run_op2 q t OSplatRotr a b i = Some Panic) /\
+    (overflow_checks q = false -> ok_vec t a -> i < 2 ^ 32 ->
+       run_op2 q t OSplatRotr a b i = Some (Ok (map (lane_rotr (width t) (i mod width t)) a))).
+Proof. exact outside2_splat_rotr. Qed.
+
+Theorem C19_outside_u128x1_extract_by_debug_assertions :
+  forall q x b i, i <> 0 ->
+    run_op2 q U128x1 OExtract [x] b i = if debug_assertions q then Some Panic else Some (Ok [x]).
+Proof. exact outside2_u128x1_extract. Qed.
+
+Theorem C19_outside_rot_words_by_debug_assertions :
+  forall q t a b i, has_op t ORotWords = true ->
+    (debug_assertions q = false -> run_op2 q t ORotWords a b i = run_op2 q t ORotWords a b (i mod 4)) /\
+    (debug_assertions q = true -> 4 <= i -> i < 2 ^ 32 -> run_op2 q t ORotWords a b i = Some Panic).
+Proof. exact outside2_rot_words. Qed.
+
+Theorem C19_outside_index_panics_any_switches :
+  forall q t a b i, (t = U32x4 \/ t = U64x4 \/ t = U128x2) -> N.of_nat (nlanes t) <= i ->
+    run_op2 q t OExtract a b i = Some Panic /\
+    ((t = U32x4 \/ t = U64x4) -> run_op2 q t OReplace a b i = Some Panic).
+Proof. exact outside2_index_panics. Qed.
+
+Definition C19_two_switch_examples := mixed_profiles_differ.
+
+Print Assumptions C19_two_switch_reduction.
+Print Assumptions C19_two_switch_diagonal.
+Print Assumptions C19_two_switch_transfer.
+Print Assumptions C19_model_eq_spec_any_switches.
+Print Assumptions C19_total_any_switches.
+Print Assumptions C19_outside_splat_rotr_by_overflow_checks.
+Print Assumptions C19_outside_u128x1_extract_by_debug_assertions.
+Print Assumptions C19_outside_rot_words_by_debug_assertions.
+Print Assumptions C19_outside_index_panics_any_switches.
+Print Assumptions C19_two_switch_examples.
